@@ -38,7 +38,8 @@ def run(ctx: Context) -> None:
     ctx.rule('R09.8', "a grid dataset can be clipped whether its coordinate variables are xarray coordinates or plain variables: every variable is masked with the values of the mask only and written under its own name (facts shared with C08 R08.1 / R08.2)", floor=14)
     from . import c08 as _c08
     from .common import share_obligations as _share
-    _share(ctx, _c08, {'R08.1', 'R08.2'}, 'R09.8')
+    # (R08.7: a mask is applied to one dataset after another of a series - applying it must leave it as it was)
+    _share(ctx, _c08, {'R08.1', 'R08.2', 'R08.7'}, 'R09.8')
     from .common import adopt_foundations as _adopt
     _adopt(ctx, 'R09.9', ['masks', 'topology'], floor=60)
     ctx.rule('R09.10', "the re-assembled result can be saved: an attribute of the input is not copied onto a variable that already holds the same key as an encoding", floor=2)
@@ -206,6 +207,40 @@ def run(ctx: Context) -> None:
                 if pol and text.replace('"', "'") in ("dtype.kind in 'iu'", "dtype.kind in 'ui'", "dtype.kind in ('i', 'u')", "dtype.kind in ('u', 'i')",
                                                       'numpy.issubdtype(dtype, numpy.integer)'):
                     kinds_ok = True
+        # ... and only clamped: a fill value that fits is kept (it is the one the masks and the other tables were made with, and the
+        # largest int64 is not a float64: a table that passes through floating point cannot hold it)
+        def is_max(e) -> bool:
+            e = uflow.resolve(e)
+            if isinstance(e, ast.Call) and dotted(e.func) == 'int' and len(e.args) == 1:
+                e = uflow.resolve(e.args[0])
+            return isinstance(e, ast.Attribute) and e.attr == 'max' and isinstance(e.value, ast.Call) and callee(ctx, uc, e.value) == 'numpy.iinfo'
+        only_clamped = False
+        if len(clamp) == 1:
+            v_ = uflow.resolve(clamp[0].value)
+            if isinstance(v_, ast.Call) and dotted(v_.func) == 'min' and len(v_.args) == 2 and not v_.keywords:
+                a_, b_ = v_.args
+                only_clamped = (norm_text(a_) == fill_p and is_max(b_)) or (norm_text(b_) == fill_p and is_max(a_))
+            elif isinstance(v_, ast.IfExp) and isinstance(v_.test, ast.Compare) and len(v_.test.ops) == 1:
+                l_, r_, op_ = v_.test.left, v_.test.comparators[0], v_.test.ops[0]
+                too_big = None      # truth of the test when the given fill value exceeds the largest integer
+                if is_max(l_) and norm_text(r_) == fill_p:
+                    too_big = True if isinstance(op_, (ast.Lt, ast.LtE)) else False if isinstance(op_, (ast.Gt, ast.GtE)) else None
+                elif norm_text(l_) == fill_p and is_max(r_):
+                    too_big = True if isinstance(op_, (ast.Gt, ast.GtE)) else False if isinstance(op_, (ast.Lt, ast.LtE)) else None
+                if too_big is not None:
+                    big_arm, fits_arm = (v_.body, v_.orelse) if too_big else (v_.orelse, v_.body)
+                    only_clamped = is_max(big_arm) and norm_text(fits_arm) == fill_p
+            elif is_max(clamp[0].value):
+                from .common import path_conditions as _pc09b
+                for t, pol in _pc09b(uc, clamp[0]):
+                    if isinstance(t, ast.Compare) and len(t.ops) == 1 and pol:
+                        l_, r_ = t.left, t.comparators[0]
+                        if isinstance(t.ops[0], (ast.Lt, ast.LtE)) and is_max(l_) and norm_text(r_) == fill_p:
+                            only_clamped = True
+                        if isinstance(t.ops[0], (ast.Gt, ast.GtE)) and norm_text(l_) == fill_p and is_max(r_):
+                            only_clamped = True
+        ctx.check('R09.3', only_clamped, "the given fill value is kept whenever the stored type can hold it, and replaced by the largest representable integer only when it cannot", uc,
+                  clamp[0] if clamp else uc.node, construct=f"fill value adjustment: {norm_text(clamp[0])[:100] if clamp else 'absent'}")
         ctx.check('R09.3', kinds_ok, "the fill value is clamped to the representable range for signed and unsigned integer types alike (uint8 / uint16 tables overflow otherwise)", uc,
                   clamp[0] if clamp else uc.node, construct=f"clamp guards: {gtxt}")
         trs = [c for c in calls_in(uc) if callee(ctx, uc, c) == 'numpy.transpose']
